@@ -286,8 +286,163 @@ def spec_build_objs(parallel):
     return sp
 
 
+# ---- Builder.get_dependency_graph and Obj.dependencies (what _build_objs assumes about the graph) -------------------
+BLD = 'loki/jit_build/builder.py'
+from pyvc.inline import inline      # noqa: E402  pylint: disable=wrong-import-position
+import itertools                    # noqa: E402  pylint: disable=wrong-import-position
+
+
+class _ObjTok:
+    """an Obj instance; instances are cached by name like the real class (Obj(name=x) returns the same object)"""
+    cache = {}
+
+    def __new__(cls, name=None, **kw):
+        if name not in cls.cache:
+            o = object.__new__(cls)
+            o.name, o.obj_dependencies = name, 'UNSET'
+            cls.cache[name] = o
+        return cls.cache[name]
+
+    def __repr__(self):
+        return '<Obj %s>' % self.name
+
+
+class _DiGraph:
+    def __init__(self):
+        self.nodes_, self.edges_ = [], []
+
+    def add_nodes_from(self, ns):
+        for n in ns:                        # networkx keeps one node per hashable object
+            if n not in self.nodes_:
+                self.nodes_.append(n)
+
+    def add_edges_from(self, es):
+        self.edges_ += list(es)
+
+
+def _sha2(file, qual):
+    import ast
+    from pyvc import rewrite
+    src = rewrite.read_source(file)
+    node, _ = rewrite.find_def(ast.parse(src), qual)
+    return rewrite.sha(rewrite.func_text(src, node))
+
+
+def spec_dependency_graph(n):
+    """all dependency DAGs on n named objects (edges only from lower to higher index: acyclic), every ordering of every
+    non-empty subset as the root list: BOUNDED exhaustive through the real function"""
+    from collections import deque
+    fn = inline(BLD, 'Builder.get_dependency_graph',
+                {'deque': deque, 'as_tuple': lambda x: tuple(x) if isinstance(x, (list, tuple)) else (x,), 'Obj': _ObjTok,
+                 'attrgetter': None, 'nx': type('nx', (), {'DiGraph': _DiGraph})})
+
+    def setup(spec):
+        env = {}
+        return (env,), {}, env
+
+    def run(env):
+        names = ['o%d' % i for i in range(n)]
+        pairs = [(i, j) for i in range(n) for j in range(i + 1, n)]
+        bad, count = [], 0
+        for mask in range(2 ** len(pairs)):
+            deps = {nm: [] for nm in names}
+            for k, (i, j) in enumerate(pairs):
+                if mask >> k & 1:
+                    deps[names[i]].append(names[j])
+            for r in range(1, n + 1):
+                for roots in itertools.permutations(names, r):
+                    count += 1
+                    _ObjTok.cache = {}
+                    objs = [_ObjTok(name=x) for x in roots]
+                    vcrt.CURRENT.loop_counts = {}       # concrete iterations are counted per call
+                    g = fn(objs, depgen=lambda o: tuple(deps[o.name]))
+                    reach, todo = [], list(roots)
+                    while todo:
+                        x = todo.pop()
+                        if x not in reach:
+                            reach.append(x)
+                            todo += deps[x]
+                    problems = []
+                    if sorted(o.name for o in g.nodes_) != sorted(reach):
+                        problems.append('nodes are not the reachable objects')
+                    if sorted(set((a.name, b.name) for a, b in g.edges_)) != sorted((x, d) for x in reach for d in deps[x]):
+                        problems.append('edges are not the dependencies')
+                    for x in reach:
+                        od = _ObjTok.cache[x].obj_dependencies
+                        if od == 'UNSET' or [o.name for o in od] != deps[x]:
+                            problems.append('obj_dependencies of %s is %r, dependencies are %r' % (x, od, deps[x]))
+                    if problems and len(bad) < 3:
+                        bad.append({'dependencies': deps, 'roots': list(roots), 'problems': problems[:2]})
+        return {'bad': bad, 'count': count}
+
+    def post(env, r):
+        return [('graph-and-wait-lists-match-the-dependencies' + ('' if not r['bad'] else ' [e.g. %s]' % (r['bad'][0],)),
+                 z3.BoolVal(not r['bad'])), ('cases-enumerated', z3.BoolVal(r['count'] > 0))]
+    sp = FunctionSpec(PROP, BLD, 'Builder.get_dependency_graph', {}, setup, post, theory=T, lemmas=[], ext=False,
+                      variant='all DAGs on %d objects, all root lists' % n,
+                      decode=lambda env, m, r: {'function': 'get_dependency_graph'},
+                      notes=['bounded: exhaustive over the DAGs on %d objects' % n])
+    sp.fn_override = run
+    sp.fn_info = {'file': BLD, 'qualname': 'Builder.get_dependency_graph', 'sha': _sha2(BLD, 'Builder.get_dependency_graph'),
+                  'loops': {}, 'dropped': []}
+    return sp
+
+
+def spec_obj_dependencies(uses, includes, header_kind):
+    class PathM:
+        def __init__(self, p):
+            self.p = str(p)
+
+        @property
+        def stem(self):
+            base = self.p.split('/')[-1]
+            return base.rsplit('.', 1)[0] if '.' in base else base
+
+    class Header:
+        def __init__(self, name=None):
+            self.name = name
+            self.source_path = None if header_kind == 'missing' else 'inc/%s.h' % name
+            self.uses = [] if header_kind == 'plain' else ['%s_kinds' % name, 'shared_mod']
+    fn = inline(FO, 'Obj.dependencies', {'Path': PathM, 'Header': Header,
+                                         'flatten': lambda it: [y for x in it for y in (x if isinstance(x, (list, tuple)) else [x])],
+                                         'as_tuple': lambda x: tuple(x), 'dict': dict})
+
+    def setup(spec):
+        env = {}
+        return (env,), {}, env
+
+    def run(env):
+        me = type('O', (), {})()
+        me.source, me.uses, me.includes = 'SOURCE', list(uses), list(includes)
+        return fn(me)
+
+    def post(env, r):
+        want = list(uses)
+        if header_kind == 'uses':
+            for inc in includes:
+                stem = inc.split('/')[-1].rsplit('.', 1)[0]
+                if '.intfb' in stem:
+                    stem = stem.rsplit('.', 1)[0]
+                want += ['%s_kinds' % stem, 'shared_mod']
+        want = list(dict.fromkeys(want))
+        ok = isinstance(r, tuple) and list(r) == want
+        return [('dependencies-are-own-uses-plus-modules-used-by-included-headers', z3.BoolVal(ok))]
+    sp = FunctionSpec(PROP, FO, 'Obj.dependencies', {}, setup, post, theory=T, lemmas=[], ext=False,
+                      variant='uses=%s includes=%s headers:%s' % (list(uses), list(includes), header_kind),
+                      decode=lambda env, m, r: {'function': 'Obj.dependencies'})
+    sp.fn_override = run
+    sp.fn_info = {'file': FO, 'qualname': 'Obj.dependencies', 'sha': _sha2(FO, 'Obj.dependencies'), 'loops': {}, 'dropped': []}
+    return sp
+
+
 def specs(tier='quick'):
-    return [spec_build_objs(True), spec_build_objs(False)]
+    out = [spec_build_objs(True), spec_build_objs(False), spec_dependency_graph(2), spec_dependency_graph(3),
+           spec_dependency_graph(4)]
+    for uses in ((), ('m1',), ('m1', 'shared_mod')):
+        for includes in ((), ('iface.intfb.h',), ('a.h', 'dir/b.intfb.h')):
+            for hk in ('uses', 'plain', 'missing'):
+                out.append(spec_obj_dependencies(uses, includes, hk))
+    return out
 
 
 def lemma_proofs():
@@ -336,12 +491,15 @@ META = {
                   'so the result covers every worker count and every task timing. Every obligation is discharged; the '
                   'list lemmas are proved by induction on every run.',
     'level_note': 'ASSUMED contracts: nx.topological_sort enumerates the graph nodes once with edge sources first (so its '
-                  'reverse lists dependencies first); Builder.get_dependency_graph adds an edge (o, d) for every d in '
-                  'o.obj_dependencies (unverified, named); wait_and_check returns only when the task has completed; '
+                  'reverse lists dependencies first); wait_and_check returns only when the task has completed; '
                   'Obj.build is used through its contract (skip if up to date, else submit to the queue or compile '
                   'synchronously) and its body is not verified; stale q_task values from an earlier build of the same Obj '
                   'instances count as completed. "Produces the same library as a serial build" is the compiler and linker '
-                  '(named, outside). Level other, not proof: the trusted contracts above carry part of the property.',
+                  '(named, outside). Bounded, never counted as proved: Builder.get_dependency_graph (real source) is run on '
+                  'every dependency DAG with up to 4 objects and every root list - nodes = reachable objects, one edge per '
+                  'dependency, every object\'s obj_dependencies (the wait list) = its dependencies; Obj.dependencies (real '
+                  'source) on 27 combinations of own USEs, included headers and header content. Level other, not proof: '
+                  'the trusted contracts above carry part of the property.',
     'trusted_base': ['pyvc engine', 'networkx.topological_sort (external)', 'concurrent.futures Future.result (external)',
                      'contract of Obj.build', 'contract of Builder.get_dependency_graph'],
     'assumptions': ['tasks of an earlier build of the same Obj instances have completed',
